@@ -103,7 +103,7 @@ def scenarios(tier: str) -> List[Any]:
                         out.append((engine, "incomplete", limit, size, term, "bytes"))
         for mx in (1, 2, 3):
             for n in range(1, mx + 3):
-                for mode in ("seq", "pipe", "h2"):
+                for mode in ("seq", "pipe", "h2", "h2c"):
                     out.append((engine, "keepalive", mx, n, mode, 0))
         for mcs in (1, 2):
             for k in (1, 2, 3):
@@ -115,6 +115,8 @@ def scenarios(tier: str) -> List[Any]:
             for jit in (0, 1, 2):
                 for nconn in (1, 2, 3):
                     out.append((engine, "recycle", mr, jit, nconn, 0))
+                if jit == 0:
+                    out.append((engine, "recycle", mr, jit, 1, "no_trigger"))  # serve() without a shutdown trigger
     return out
 
 
@@ -153,6 +155,14 @@ def build(params: Any) -> tuple:
                 client.append(("cmd", 0, "headers", 1 + 2 * i, h2_request_headers(b"GET", b"/r%d" % i), True))
                 client.append(("wait_status", 0, 1 + 2 * i))
             conn = {"carrier": "h2", "tls": True, "alpn": "h2"}
+        elif mode == "h2c":
+            up = h1_request(b"GET", b"/r0", [(b"Connection", b"Upgrade, HTTP2-Settings"), (b"Upgrade", b"h2c"),
+                                             (b"HTTP2-Settings", b"AAMAAABkAAQAoAAAAAIAAAAA")])
+            client = [("data", 0, up), ("wait_status", 0)]
+            for i in range(1, n):
+                client.append(("cmd", 0, "headers", 1 + 2 * i, h2_request_headers(b"GET", b"/r%d" % i, scheme=b"http"), True))
+                client.append(("wait_h2", 1 + 2 * i))
+            conn = {"carrier": "h2c", "methods": [b"GET"]}
         elif mode == "pipe":
             client = [("data", 0, b"".join(h1_request(b"GET", b"/r%d" % i) for i in range(n)))]
             conn = {"carrier": "h1", "methods": [b"GET"] * n}
@@ -166,7 +176,7 @@ def build(params: Any) -> tuple:
         sc = {**base, "conns": {0: conn}, "apps": {"http": OK},
               "config": {"keep_alive_max_requests": mx, "keep_alive_timeout": 5},
               "sources": [("client", client)], "midflight": False,
-              "guards": {"resp_count": _resp_guard}}
+              "guards": {"resp_count": _resp_guard, "wait_h2": _wait_h2}}
         return engine, sc
     if fam == "streams":
         _, _, mcs, k, _, _ = params
@@ -186,7 +196,7 @@ def build(params: Any) -> tuple:
               "sources": [("client", client)], "midflight": False}
         return engine, sc
     if fam == "recycle":
-        _, _, mr, jit, nconn, _ = params
+        _, _, mr, jit, nconn, trig = params
         total = mr + jit + 2
         sources = []
         per = [[] for _ in range(nconn)]
@@ -199,7 +209,7 @@ def build(params: Any) -> tuple:
                 evs.append(("conn_resp", c, j + 1))
             sources.append((f"c{c}", evs))
         sources.append(("clock", [("tick",)] * 3))
-        sc = {"level": "serve", "client_factory": lawless, "trio_rev": True, "randint": True,
+        sc = {"level": "serve", "client_factory": lawless, "trio_rev": True, "randint": True, "no_trigger": trig == "no_trigger",
               "apps": {"lifespan": [("lifespan_loop",)], "http": OK},
               "config": {"max_requests": mr, "max_requests_jitter": jit, "keep_alive_timeout": 50, "graceful_timeout": 3,
                          "shutdown_timeout": 2},
@@ -217,6 +227,17 @@ def _conn_resp_guard(w: Any, ev: tuple) -> bool:
     if rec.refused or rec.closed_at is not None:
         return True
     return sum(1 for r in rec.client.h1.responses if r["complete"]) >= ev[2]
+
+
+def _wait_h2(w: Any, ev: tuple) -> bool:
+    """('wait_h2', sid): the (upgraded) HTTP/2 client has seen the response head of stream sid, or the connection is gone."""
+    rec = w.conns.get(0)
+    if rec is None:
+        return False
+    if rec.closed_at is not None:
+        return True
+    st = rec.client.h2.streams.get(ev[1]) if rec.client.h2 is not None else None
+    return st is not None and st["status"] is not None
 
 
 def _resp_guard(w: Any, ev: Any = None) -> bool:
@@ -261,7 +282,7 @@ def oracle(w: Any, params: Any) -> List[dict]:
     elif fam == "keepalive":
         _, _, mx, n, mode, _ = params
         rec = w.conns[0]
-        allowed = mx + 1 if mode == "h2" else mx
+        allowed = mx + 1 if mode in ("h2", "h2c") else mx
         tag = f"{mode}:max{mx}"
         if len(reqs) > allowed:
             out.append(V("too-many-requests", tag, f"{len(reqs)} instances with {n} requests sent"))
@@ -274,7 +295,7 @@ def oracle(w: Any, params: Any) -> List[dict]:
             if len(reqs) < min(n, allowed):
                 out.append(V("under-limit-refused", tag, f"{len(reqs)} instances, {n} pipelined requests, allowed {allowed}"))
         # every request that was taken on is answered completely ("served"), including the last allowed one
-        if mode == "h2":
+        if mode in ("h2", "h2c"):
             for i, inst in enumerate(reqs):
                 sid = 1 + 2 * int(inst.scope["path"][2:])
                 st = rec.client.h2.streams.get(sid)
@@ -286,7 +307,7 @@ def oracle(w: Any, params: Any) -> List[dict]:
                 if i >= len(rs) or not rs[i]["complete"] or rs[i]["body"] != b"ok":
                     out.append(V("served-request-truncated", tag, f"request {i} reached the application but its response is incomplete"))
         if n >= allowed and len(reqs) >= allowed:
-            if mode == "h2":
+            if mode in ("h2", "h2c"):
                 if rec.client.h2.goaway is None:
                     out.append(V("close-not-announced", tag, "no GOAWAY although the request limit was reached"))
             else:
